@@ -71,12 +71,12 @@ theorem lookup_filter (p : α → Bool) {l : List α} (hs : Sorted key l) (id : 
         have := hs.head_lt h (List.mem_filter.1 hm).1
         omega
       by_cases hp : p x = true
-      · simp [List.filter_cons, hp, lookup_cons, hx, Option.filter]
-      · simp [List.filter_cons, hp, hno, Option.filter]
+      · simp [hp, lookup_cons, hx, Option.filter]
+      · simp [hp, hno, Option.filter]
     · rw [if_neg hx, ← ih hs.tail]
       by_cases hp : p x = true
-      · simp [List.filter_cons, hp, lookup_cons, hx]
-      · simp [List.filter_cons, hp]
+      · simp [hp, lookup_cons, hx]
+      · simp [hp]
 
 theorem lookup_append (l1 l2 : List α) (id : Nat) :
     lookup key (l1 ++ l2) id = (lookup key l1 id).or (lookup key l2 id) := by
